@@ -11,7 +11,11 @@ F = "dulwich/file.py"
 class_spec(file=F, cls="_GitFile", fields={
     "_closed": "bool", "_fsync": "bool", "_file": "opaque", "_filename": "opaque", "_lockfilename": "opaque",
     "_shared_perm": "opaque", "owns": "bool", "committed": "bool", "stuck": "bool"},
-    init={"owns": "False", "committed": "False", "stuck": "False"})
+    init={"owns": "False", "committed": "False", "stuck": "False"},
+    # only the methods under contract below change these (syntactic guard: uncontracted-mutator /
+    # uncontracted-effect-callee); everything else on a handle is a proxy to the underlying file object
+    stable=["owns", "committed", "stuck", "_closed", "_filename", "_lockfilename", "_file", "_fsync", "_shared_perm"],
+    mutators=["close", "abort", "__exit__", "__del__", "__init__"])
 # `stuck`: the operating system refused to remove the lock file (os.remove itself failed): the one
 # situation in which a lock cannot be released by anyone's code.
 
@@ -66,16 +70,19 @@ contract(
     params={"self": "obj:_GitFile"}, returns="None",
     requires=[INV],
     modifies=["self._closed", "self.owns", "self.stuck"],
-    raises={ANY: ["not self.owns or self.stuck", "self.committed == old(self.committed)"]},          # Released on every exit
+    raises={ANY: ["not self.owns or self.stuck", "self.committed == old(self.committed)", INV]},          # Released on every exit
     ensures=["not self.owns", "self._closed", "self.committed == old(self.committed)"],
     options=OPTS,
 )
 contract(
     prop=["C07", "C09"], file=F, func="_GitFile.close",
     params={"self": "obj:_GitFile"}, returns="None",
-    requires=[INV, "self._closed or not self.committed"],
+    requires=[INV, "self._closed or not self.committed",
+              # a failing writer never commits: close() (= commit) is not reached from an except/finally
+              # arm that is running because of an exception
+              "self._closed or not handling_exception()"],
     modifies=["self._closed", "self.owns", "self.committed", "self.stuck"],
-    raises={ANY: ["not self.owns or self.stuck", "self.committed == old(self.committed)"]},   # failed write: old content stays, lock released
+    raises={ANY: ["not self.owns or self.stuck", "self.committed == old(self.committed)", INV]},   # failed write: old content stays, lock released
     ensures=["not self.owns", "self._closed", "old(self._closed) or self.committed"],
     options=OPTS,
 )
@@ -84,16 +91,54 @@ contract(
     params={"self": "obj:_GitFile", "exc_type": "opaque?", "exc_val": "opaque", "exc_tb": "opaque"}, returns="None",
     requires=[INV, "self._closed or not self.committed"],
     modifies=["self._closed", "self.owns", "self.committed", "self.stuck"],
-    raises={ANY: ["not self.owns or self.stuck", "self.committed == old(self.committed)"]},
+    raises={ANY: ["not self.owns or self.stuck", "self.committed == old(self.committed)", INV]},
     ensures=["not self.owns", "self._closed", "exc_type is None or self.committed == old(self.committed)",
              "exc_type is not None or old(self._closed) or self.committed"],
     options=OPTS,
+)
+contract(
+    prop=["C07"], file=F, func="_GitFile.closed",
+    params={"self": "obj:_GitFile"}, returns="bool",
+    ensures=["result == self._closed"], options={"property": True},
 )
 contract(
     prop=["C07"], file=F, func="_GitFile.__enter__",
     params={"self": "obj:_GitFile"}, returns="self",
 )
 
+
+# ---- hashing writers that wrap a handle (dulwich/pack.py): they forward to the handle; only close()
+# (and __exit__, which calls it) closes it -------------------------------------------------------------
+PK = "dulwich/pack.py"
+for _cls, _hash in (("SHA1Writer", "sha1"), ("HashWriter", "hash_obj")):
+    class_spec(file=PK, cls=_cls, fields={"f": "obj:_GitFile", "length": "opaque", _hash: "opaque", "digest": "opaque"},
+               stable=["f"], mutators=["close", "__exit__"])
+    contract(prop=["C07"], file=PK, func=f"{_cls}.__init__",
+             params={"self": f"obj:{_cls}", "f": "obj:_GitFile", "hash_func": "opaque"}, returns="None",
+             modifies=["self"], assigns={"self.f": "f"}, raises={ANY: None}, options={"faults": "base"})
+    contract(prop=["C07"], file=PK, func=f"{_cls}.write",
+             params={"self": f"obj:{_cls}", "data": "opaque"}, returns="opaque",
+             modifies=["self.length", f"self.{_hash}"], raises={ANY: None}, options={"faults": "base"})
+    contract(prop=["C07"], file=PK, func=f"{_cls}.write_sha" if _cls == "SHA1Writer" else f"{_cls}.write_hash",
+             params={"self": f"obj:{_cls}"}, returns="opaque",
+             modifies=["self.length", f"self.{_hash}"], raises={ANY: None}, options={"faults": "base"})
+    contract(prop=["C07"], file=PK, func=f"{_cls}.close",
+             params={"self": f"obj:{_cls}"}, returns="None",
+             requires=["self.f._closed == (not self.f.owns)", "self.f._closed or not self.f.committed",
+                       "self.f._closed or not handling_exception()"],
+             modifies=["self.length", f"self.{_hash}", "self.digest", "self.f._closed", "self.f.owns", "self.f.committed", "self.f.stuck"],
+             # if writing the trailer fails the handle is left as it was (still open: the caller's
+             # error path must abort it); if the handle's close() fails it has released the lock
+             raises={ANY: ["self.f.committed == old(self.f.committed)", "self.f._closed == (not self.f.owns)"]},
+             ensures=["not self.f.owns", "self.f._closed", "old(self.f._closed) or self.f.committed"],
+             options={"faults": "base"})
+
+# functions that receive a handle and wrap it: frame condition only (they must not close/abort it)
+for _file, _func in ((PK, "write_pack_index_v1"), (PK, "write_pack_index_v2"), (PK, "write_pack_index_v3"),
+                     (PK, "write_pack_index"), ("dulwich/midx.py", "write_midx")):
+    contract(prop=["C07"], file=_file, func=_func, params={"f": "obj:_GitFile"}, returns="opaque", raises={ANY: None},
+             options={"faults": "base", "default_param": "opaque"}, cover=False,
+             note="frame: the handle passed in is neither closed nor aborted nor committed")
 
 # ---- every routine that writes through the lock protocol ---------------------------------------------
 # Obligations (options lock_discipline): each _GitFile taken by the call and not handed on is Released
@@ -127,3 +172,48 @@ WOPTS = {"faults": "base", "lock_discipline": True, "default_param": "opaque"}
 for _file, _func in WRITERS:
     contract(prop=["C07"], file=_file, func=_func, returns="opaque", raises={ANY: None},
              inline=["GitFile"], options=WOPTS, cover=False)
+
+
+# ---- guard: every function of the repository that opens a lock file for writing is under contract ------
+HELD_BY_OBJECT = [("dulwich/index.py", "locked_index.__enter__"), ("dulwich/refs.py", "locked_ref.__enter__")]
+
+
+def guard_all_writers(root):
+    """Returns a list of problems (empty = fine): functions calling GitFile(..., 'wb'...) that no
+    contract covers.  Run by the driver on every check of C07 (syntactic closure, DESIGN.md 1.5)."""
+    import ast
+    import glob
+    import os
+    covered = set(WRITERS) | set(HELD_BY_OBJECT) | {(F, "GitFile")}
+    problems = []
+    for f in sorted(glob.glob(os.path.join(root, "dulwich", "**", "*.py"), recursive=True)):
+        if "/tests/" in f:
+            continue
+        rel = os.path.relpath(f, root)
+        try:
+            tree = ast.parse(open(f, "rb").read())
+        except SyntaxError as ex:
+            problems.append(f"{rel}: does not parse: {ex}")
+            continue
+
+        def visit(node, qual):
+            for ch in ast.iter_child_nodes(node):
+                if isinstance(ch, (ast.FunctionDef, ast.ClassDef, ast.AsyncFunctionDef)):
+                    visit(ch, qual + [ch.name])
+                else:
+                    visit(ch, qual)
+            if isinstance(node, ast.Call) and isinstance(node.func, ast.Name) and node.func.id in ("GitFile", "_GitFile"):
+                mode = None
+                if len(node.args) > 1:
+                    mode = node.args[1].value if isinstance(node.args[1], ast.Constant) else "dyn"
+                for k in node.keywords:
+                    if k.arg == "mode":
+                        mode = k.value.value if isinstance(k.value, ast.Constant) else "dyn"
+                if mode is not None and ("w" in str(mode) or mode == "dyn"):
+                    if (rel, ".".join(qual)) not in covered:
+                        problems.append(f"uncontracted-writer: {rel}:{'.'.join(qual)} (line {node.lineno}) takes a write lock but has no contract")
+        visit(tree, [])
+    return problems
+
+
+GUARDS = {"C07": [guard_all_writers]}
